@@ -205,7 +205,7 @@ def _compare_shard(args):
     collect monitor verdicts. Returns a summary dict (picklable)."""
     cases_path, model_path, nontrivial_re, max_keep = args
     ntre = re.compile(nontrivial_re) if nontrivial_re else None
-    impl, ctx_of = [], []
+    impl, ctx_of, case_of = [], [], []
     cur, cur_start = [], 0
     hashes, nontrivial, records = set(), 0, 0
     samples, notes = [], []
@@ -218,6 +218,7 @@ def _compare_shard(args):
             if t == 'I':
                 impl.append(line[2:])
                 ctx_of.append((cur_start, len(cur)))
+                case_of.append(records)
             elif t == '#':
                 notes.append(line[2:])
             else:
@@ -254,9 +255,14 @@ def _compare_shard(args):
                         mon_fail.append((i, name, cls))
     diffs = []
     ndiff = 0
+    diffed = set()
     for i, im in enumerate(impl):
         mo = model.get(i)
         if mo is None or mo != im:
+            # a history diverges once: later differences of the same case are consequences of the first
+            if case_of[i] in diffed:
+                continue
+            diffed.add(case_of[i])
             ndiff += 1
             if len(diffs) < max_keep:
                 diffs.append((i, im, mo))
